@@ -310,7 +310,7 @@ def execute(lines, bins, tag='c01', timeout=150):
 
 def sizes(tier):
     if tier == 'thorough':
-        return dict(nrandom=260, lines_per_sig=8, patch_lines=4000)
+        return dict(nrandom=260, lines_per_sig=12, patch_lines=4000)
     return dict(nrandom=58, lines_per_sig=2, patch_lines=400)
 
 
@@ -491,6 +491,7 @@ def run(tier):
 
 def replay(body):
     tier = 'quick'
+    C.regen(GEN)          # the model must be the one of the current source, as in run()
     g, u, sigs = corpus(body.get('corpus_seed', C.seed()), body.get('nrandom', sizes(tier)['nrandom']))
     bins = build_probes()
     ops = body.get('ops', [])
